@@ -91,7 +91,65 @@ def _own(mod, res):
     return [v for v in res["violations"] if v.get("prop", mod.PROPERTY) == mod.PROPERTY or v.get("prop") in also]
 
 
+def forked(fn, *args):
+    """Run fn(*args) in a forked child and return its (pickled) result. Every chunk of runs, every canonical / directed scenario and
+    every candidate of the minimiser starts from the state of a process that has imported the code under test but has never built or
+    run anything: module-level state that the code under test keeps between builds (caches, class attributes, mutated defaults) can
+    then only come from the runs of the same chunk, which makes the history of a run a function of the seed (and replayable)."""
+    import pickle
+    rd, wr = os.pipe()
+    sys.stdout.flush()
+    sys.stderr.flush()
+    pid = os.fork()
+    if pid == 0:
+        code = 0
+        try:
+            os.close(rd)
+            try:
+                data = pickle.dumps(("ok", fn(*args)))
+            except BaseException as e:  # noqa
+                data = pickle.dumps(("exc", "".join(traceback.format_exception(type(e), e, e.__traceback__))[-3000:]))
+            with os.fdopen(wr, "wb") as f:
+                f.write(data)
+        except BaseException:  # noqa
+            code = 1
+        finally:
+            os._exit(code)
+    os.close(wr)
+    with os.fdopen(rd, "rb") as f:
+        data = f.read()
+    os.waitpid(pid, 0)
+    if not data:
+        raise RuntimeError("forked run died without a result (pid %d)" % pid)
+    kind, val = pickle.loads(data)
+    if kind == "exc":
+        raise RuntimeError("forked run raised: " + val)
+    return val
+
+
 def _work(args):
+    return forked(_work_inner, args)
+
+
+def gen_scenario(mod, prop, family, i, seed, tier):
+    rng = prng.stream(seed, prop, family, i)
+    if hasattr(mod, "generate_indexed"):
+        scn = mod.generate_indexed(family, i, rng, tier)
+    else:
+        scn = mod.generate(family, rng, tier)
+    scn.setdefault("family", family)
+    return scn
+
+
+def run_history(mod, history, scn):
+    """The runs of `history` (results ignored) and then `scn`, in this process: replay of a violation that needs state left behind
+    by earlier builds in the same process."""
+    for h in history:
+        run_one(mod, h)
+    return run_one(mod, scn)
+
+
+def _work_inner(args):
     prop, family, start, count, seed, tier = args
     mod = load(prop)
     out = []
@@ -113,7 +171,7 @@ def _work(args):
         res = run_one(mod, scn)
         viol = _own(mod, res)
         r = {"family": family, "index": i, "digest": res.get("digest"), "stats": res.get("stats", {}),
-             "violations": viol, "wall": time.time() - t0}
+             "violations": viol, "wall": time.time() - t0, "chunk_start": start}
         if "harness_error" in res:
             r["harness_error"] = res["harness_error"]
         if viol or "harness_error" in res or i == start:
@@ -163,7 +221,9 @@ def do_replay(prop, path):
     mod = load(prop)
     with open(path) as f:
         rp = json.load(f)
-    res = run_one(mod, rp["scenario"])
+    if rp.get("history"):
+        print("replay: %d earlier runs of the same process first (the violation needs the state they leave behind)" % len(rp["history"]))
+    res = run_history(mod, rp.get("history") or [], rp["scenario"])
     if "harness_error" in res:
         print("HARNESS-ERROR", res["harness_error"])
         return 2
@@ -199,7 +259,7 @@ def check(prop, tier, seed=0, workers=None, scale=1.0):
         cpath = os.path.join(VERIF, e["canonical"])
         with open(cpath) as f:
             rp = json.load(f)
-        res = run_one(mod, rp["scenario"])
+        res = forked(run_history, mod, rp.get("history") or [], rp["scenario"])
         if "harness_error" in res:
             harness_errors.append("canonical %s: %s" % (e["id"], res["harness_error"]))
             continue
@@ -233,7 +293,7 @@ def check(prop, tier, seed=0, workers=None, scale=1.0):
     ctx = multiprocessing.get_context("fork")
     with cf.ProcessPoolExecutor(max_workers=workers, mp_context=ctx) as ex:
         futs = [ex.submit(_work, t) for t in tasks]
-        dfuts = [ex.submit(_run_directed, prop, i, scn) for i, scn in enumerate(directed)]
+        dfuts = [ex.submit(forked, _run_directed, prop, i, scn) for i, scn in enumerate(directed)]
         for fu in dfuts + futs:
             try:
                 rs = fu.result(timeout=getattr(mod, "BATCH_TIMEOUT", 3600))
@@ -251,6 +311,11 @@ def check(prop, tier, seed=0, workers=None, scale=1.0):
     reported = 0
     seen = set()
     os.makedirs(os.path.join(VERIF, "replays", prop), exist_ok=True)
+    by_origin = {"%s#%s" % (r["family"], r["index"]): r for r in all_results if "chunk_start" in r}
+
+    def reproduces(hist, c, v):
+        r = forked(run_history, mod, hist, c)
+        return any(vkey(x) == vkey(v) for x in _own(mod, r))
     for scn, v, origin in violations:
         k = (scn.get("family"),) + vkey(v)
         if k in seen:
@@ -258,17 +323,35 @@ def check(prop, tier, seed=0, workers=None, scale=1.0):
         seen.add(k)
         if len(seen) > 6:
             break
-
-        def same(c, v=v):
-            r = run_one(mod, c)
-            return any(vkey(x) == vkey(v) for x in _own(mod, r))
-        small, used = shrinker.shrink(scn, same, getattr(mod, "shrink_candidates", None),
-                                      max_runs=getattr(mod, "SHRINK_RUNS", 200),
-                                      max_wall=getattr(mod, "SHRINK_WALL", 120.0))
-        res = run_one(mod, small)
+        history = []
+        if not reproduces([], scn, v) and origin in by_origin:
+            # not reproducible on its own: the violation needs state that earlier runs of the same chunk left behind in the code under
+            # test. The history is regenerated from the seed, confirmed, and minimised by dropping runs.
+            r0 = by_origin[origin]
+            history = [gen_scenario(mod, prop, r0["family"], j, seed, tier) for j in range(r0["chunk_start"], r0["index"])]
+            if history and reproduces(history, scn, v):
+                j = 0
+                while j < len(history):
+                    cand = history[:j] + history[j + 1:]
+                    if reproduces(cand, scn, v):
+                        history = cand
+                    else:
+                        j += 1
+            else:
+                history = []
+        if history:
+            small, used = scn, 0
+            res = forked(run_history, mod, history, small)
+        else:
+            def same(c, v=v):
+                return reproduces([], c, v)
+            small, used = shrinker.shrink(scn, same, getattr(mod, "shrink_candidates", None),
+                                          max_runs=getattr(mod, "SHRINK_RUNS", 200),
+                                          max_wall=getattr(mod, "SHRINK_WALL", 120.0))
+            res = forked(run_one, mod, small)
         vv = [x for x in _own(mod, res) if vkey(x) == vkey(v)]
         if not vv:
-            small, res = scn, run_one(mod, scn)
+            small, res = scn, forked(run_history, mod, history, scn)
             vv = [x for x in _own(mod, res) if vkey(x) == vkey(v)] or [v]
         v2 = vv[0]
         kid = mod.known_match(small, v2) if hasattr(mod, "known_match") else None
@@ -277,13 +360,18 @@ def check(prop, tier, seed=0, workers=None, scale=1.0):
                 known_confirmed.append(kid)
                 print("KNOWN-FINDING: property=%s %s: %s" % (prop, kid, known_active[kid]["what"]))
             continue
-        h = hashlib.sha256(json.dumps(small, sort_keys=True).encode()).hexdigest()[:12]
+        h = hashlib.sha256(json.dumps([history, small], sort_keys=True).encode()).hexdigest()[:12]
         path = os.path.join(VERIF, "replays", prop, "%s.json" % h)
+        rp = {"property": prop, "seed": seed, "origin": origin, "shrink_runs": used,
+              "violation": v2, "digest": res.get("digest"), "scenario": small}
+        if history:
+            rp["history"] = history
         with open(path, "w") as f:
-            json.dump({"property": prop, "seed": seed, "origin": origin, "shrink_runs": used,
-                       "violation": v2, "digest": res.get("digest"), "scenario": small}, f, indent=1)
+            json.dump(rp, f, indent=1)
         code, out = replay_fresh(prop, path)
         tag = "" if code == 1 else " (WARNING: fresh-process replay exit=%d)" % code
+        if history:
+            tag += " (needs %d earlier run(s) in the same process: history in the replay file)" % len(history)
         print("  %s %s: %s%s" % (v2["cls"], v2["observable"], v2["msg"][:400], tag))
         print("VIOLATION property=%s replay=%s" % (prop, path))
         reported += 1
